@@ -525,70 +525,86 @@ func c12R2(c *Ctx, fns []*ssa.Function) {
 		gzr := ResultOf(CallsTo(E, "compress/gzip.NewReader")[0], 0)
 		parses := CallsTo(E, "digest.Parse")
 		vers := CallsTo(E, "(digest.Digest).Verifier")
-		if len(parses) == 0 || len(vers) == 0 || gzr == nil {
+		chkIdx := -1
+		inline := len(parses) > 0 && len(vers) > 0
+		if !inline && gzr != nil {
+			// the parse / verifier / tee wiring may live in a helper that returns (reader, verifier)
+			for _, call := range Calls(E, func(string) bool { return true }) {
+				H := StaticCallee(call)
+				hc, isCall := call.(*ssa.Call)
+				if H == nil || !isCall || fnPkgPath(H) != fnPkgPath(E) || len(CallsTo(H, "digest.Parse")) == 0 || len(CallsTo(H, "(digest.Digest).Verifier")) == 0 {
+					continue
+				}
+				chkIdx = c12R2ViaHelper(c, R2, E, xcall, gzr, hc, H)
+			}
+		}
+		if !inline && chkIdx == -1 {
 			c.Violation(R2, en+"|reader-tees-into-verifier", xcall.Pos(), "the checksum is not parsed into a verifier: the uncompressed digest recorded at pack time is never checked")
 			continue
 		}
-		verifier := vers[0].(*ssa.Call)
-		okV := false
-		for _, p := range parses {
-			if d := ResultOf(p, 0); d != nil && c11DerivesFrom(verifier.Call.Args[0], map[ssa.Value]bool{d: true}) {
-				for _, r := range Roots(p.Common().Args[0]) {
-					if _, isP := r.(*ssa.Parameter); isP {
-						okV = true
-					}
-				}
-			}
-		}
-		// reader argument of the tar extractor
-		var reader ssa.Value
-		for _, a := range xcall.Call.Args {
-			if types.IsInterface(a.Type()) {
-				reader = a
-			}
-		}
-		var tee *ssa.Call
-		okR := okV && reader != nil
-		if reader != nil {
-			for _, r := range Roots(reader) {
-				if call, ok := r.(*ssa.Call); ok && CalleeName(call) == "io.TeeReader" {
-					if c11DerivesFrom(call.Call.Args[0], map[ssa.Value]bool{gzr: true}) && c11DerivesFrom(call.Call.Args[1], map[ssa.Value]bool{verifier: true}) {
-						tee = call
-						continue
-					}
-					okR = false
-				} else if !c11DerivesFrom(r, map[ssa.Value]bool{gzr: true}) {
-					okR = false
-				}
-			}
-		}
-		if tee == nil {
-			okR = false
-		}
-		// once the checksum parsed, the only reader that reaches the extractor is the tee
-		if okR {
+		if inline {
+			chkIdx = c12ParamIndexReaching(E, "digest.Parse", 0)
+			verifier := vers[0].(*ssa.Call)
+			okV := false
 			for _, p := range parses {
-				if e := ErrOf(p); e != nil {
-					ne, _, _ := NilTests(E, Aliases(e))
-					if len(ne) == 0 {
+				if d := ResultOf(p, 0); d != nil && c11DerivesFrom(verifier.Call.Args[0], map[ssa.Value]bool{d: true}) {
+					for _, r := range Roots(p.Common().Args[0]) {
+						if _, isP := r.(*ssa.Parameter); isP {
+							okV = true
+						}
+					}
+				}
+			}
+			// reader argument of the tar extractor
+			var reader ssa.Value
+			for _, a := range xcall.Call.Args {
+				if types.IsInterface(a.Type()) {
+					reader = a
+				}
+			}
+			var tee *ssa.Call
+			okR := okV && reader != nil
+			if reader != nil {
+				for _, r := range Roots(reader) {
+					if call, ok := r.(*ssa.Call); ok && CalleeName(call) == "io.TeeReader" {
+						if c11DerivesFrom(call.Call.Args[0], map[ssa.Value]bool{gzr: true}) && c11DerivesFrom(call.Call.Args[1], map[ssa.Value]bool{verifier: true}) {
+							tee = call
+							continue
+						}
+						okR = false
+					} else if !c11DerivesFrom(r, map[ssa.Value]bool{gzr: true}) {
 						okR = false
 					}
-					for _, edge := range ne {
-						if reach(edge.To, 0, xcall, newCut().Instr(tee)) {
+				}
+			}
+			if tee == nil {
+				okR = false
+			}
+			// once the checksum parsed, the only reader that reaches the extractor is the tee
+			if okR {
+				for _, p := range parses {
+					if e := ErrOf(p); e != nil {
+						ne, _, _ := NilTests(E, Aliases(e))
+						if len(ne) == 0 {
 							okR = false
 						}
-						// and the value selected on that path is the tee (phi edges from the tee's block)
-						if phi, ok := reader.(*ssa.Phi); ok {
-							for i, pred := range phi.Block().Preds {
-								if reach(edge.To, 0, pred.Instrs[len(pred.Instrs)-1], nil) || pred == edge.To {
-									okEdge := false
-									for _, r := range Roots(phi.Edges[i]) {
-										if r == ssa.Value(tee) {
-											okEdge = true
+						for _, edge := range ne {
+							if reach(edge.To, 0, xcall, newCut().Instr(tee)) {
+								okR = false
+							}
+							// and the value selected on that path is the tee (phi edges from the tee's block)
+							if phi, ok := reader.(*ssa.Phi); ok {
+								for i, pred := range phi.Block().Preds {
+									if reach(edge.To, 0, pred.Instrs[len(pred.Instrs)-1], nil) || pred == edge.To {
+										okEdge := false
+										for _, r := range Roots(phi.Edges[i]) {
+											if r == ssa.Value(tee) {
+												okEdge = true
+											}
 										}
-									}
-									if !okEdge && tee.Block().Dominates(pred) {
-										okR = false
+										if !okEdge && tee.Block().Dominates(pred) {
+											okR = false
+										}
 									}
 								}
 							}
@@ -596,40 +612,64 @@ func c12R2(c *Ctx, fns []*ssa.Function) {
 					}
 				}
 			}
-		}
-		c.Check(R2, en+"|reader-tees-into-verifier", xcall.Pos(), okR,
-			ifelse(okR, "when the checksum parses, the tar extractor reads through io.TeeReader(gzip reader, verifier)", "the bytes the tar extractor consumes are not fed to the verifier of the recorded digest: a tampered tar stream is unpacked without notice"))
-		r := ErrFlow(xcall, ErrFlowOpts{})
-		c.Check(R2, en+"|extract-error-surfaces", xcall.Pos(), r.OK, ifelse(r.OK, r.How, r.Detail))
-		// nil return dominated by Verified() when a verifier exists
-		var verT, noVer []Edge
-		for _, i := range Ifs(E) {
-			cond, t, _ := ifEdges(i)
-			recv, _ := c12Invoke(cond, "Verified")
-			if recv == nil {
-				continue
-			}
-			okRecv := true
-			for _, rt := range Roots(recv) {
-				if k, isConst := rt.(*ssa.Const); isConst && k.Value == nil {
+			c.Check(R2, en+"|reader-tees-into-verifier", xcall.Pos(), okR,
+				ifelse(okR, "when the checksum parses, the tar extractor reads through io.TeeReader(gzip reader, verifier)", "the bytes the tar extractor consumes are not fed to the verifier of the recorded digest: a tampered tar stream is unpacked without notice"))
+			r := ErrFlow(xcall, ErrFlowOpts{})
+			c.Check(R2, en+"|extract-error-surfaces", xcall.Pos(), r.OK, ifelse(r.OK, r.How, r.Detail))
+			// nil return dominated by Verified() when a verifier exists
+			var verT, noVer []Edge
+			var verRecvs []ssa.Value
+			for _, i := range Ifs(E) {
+				cond, t, _ := ifEdges(i)
+				recv, _ := c12Invoke(cond, "Verified")
+				if recv == nil {
 					continue
 				}
-				if rt != ssa.Value(verifier) {
-					okRecv = false
+				// the value consulted at the end is the very verifier the tee feeds
+				// (through the phi); a value that can only be nil is not a verifier
+				okRecv, hasVer := true, false
+				for _, rt := range Roots(recv) {
+					if k, isConst := rt.(*ssa.Const); isConst && k.Value == nil {
+						continue
+					}
+					if rt != ssa.Value(verifier) {
+						okRecv = false
+					} else {
+						hasVer = true
+					}
+				}
+				if okRecv && hasVer {
+					verRecvs = append(verRecvs, recv)
+					verT = append(verT, t)
+					ne, _, _ := NilTests(E, map[ssa.Value]bool{recv: true})
+					noVer = append(noVer, ne...)
 				}
 			}
-			if okRecv {
-				verT = append(verT, t)
-				ne, _, _ := NilTests(E, map[ssa.Value]bool{recv: true})
-				noVer = append(noVer, ne...)
+			atoms := c11SuccessAtoms(E)
+			okVer := len(verT) > 0 && len(atoms) > 0 && c11AllAtomsPass(atoms, func() *cut { return newCut().Edges(verT...).Edges(noVer...) })
+			// the no-verifier edge is legitimate only when the checksum was absent or
+			// unparsable: behind the parse-success edge a nil return needs Verified()
+			if okVer {
+				for _, p := range parses {
+					e := ErrOf(p)
+					if e == nil {
+						okVer = false
+						continue
+					}
+					ne, _, _ := NilTests(E, Aliases(e))
+					for _, edge := range ne {
+						for _, rv := range verRecvs {
+							if !c12NonNilBehind(rv, edge, verifier, 0) {
+								okVer = false
+							}
+						}
+					}
+				}
 			}
+			c.Check(R2, en+"|success-dominated-by-verified", E.Pos(), okVer,
+				ifelse(okVer, "every nil return passes the Verified()==true edge or the no-verifier edge", "the extractor can return nil on the checksum-parsed path without Verified()==true of the verifier that the TeeReader feeds (the value tested at the end is not that verifier, or the test is bypassed): a directory whose tar digest mismatches is accepted"))
 		}
-		atoms := c11SuccessAtoms(E)
-		okVer := len(verT) > 0 && len(atoms) > 0 && c11AllAtomsPass(atoms, func() *cut { return newCut().Edges(verT...).Edges(noVer...) })
-		c.Check(R2, en+"|success-dominated-by-verified", E.Pos(), okVer,
-			ifelse(okVer, "every nil return passes the Verified()==true edge or the no-verifier edge", "the extractor can return nil although the verifier exists and did not verify: a directory whose tar digest mismatches is accepted"))
 		// callers
-		chkIdx := c12ParamIndexReaching(E, "digest.Parse", 0)
 		gzIdx := c12ParamIndexReaching(E, "os.Open", 0)
 		n := 0
 		for _, g := range fns {
@@ -683,6 +723,188 @@ func c12R2(c *Ctx, fns []*ssa.Function) {
 			c.LostAnchor(R2, "caller of the gzip extractor "+en)
 		}
 	}
+}
+
+// c12R2ViaHelper: the gzip extractor E obtains (reader, verifier) from a helper
+// H(reader, checksum).  H is summarised per Return: it yields either
+// (the reader unchanged, nil) — only where the checksum did not parse — or
+// (TeeReader(reader, V), V) with V the verifier of the parsed checksum; E must
+// hand H's reader result to the tar extractor and consult H's verifier result.
+// Returns the index of E's parameter that carries the checksum (-2 if unknown).
+func c12R2ViaHelper(c *Ctx, R2 string, E *ssa.Function, xcall *ssa.Call, gzr ssa.Value, hcall *ssa.Call, H *ssa.Function) int {
+	en := FnName(E)
+	res := H.Signature.Results()
+	rIdx, vIdx := -1, -1
+	for i := 0; i < res.Len(); i++ {
+		t := res.At(i).Type()
+		if n, ok := t.(*types.Named); ok && n.Obj().Name() == "Verifier" {
+			vIdx = i
+		} else if types.IsInterface(t) {
+			rIdx = i
+		}
+	}
+	parses := CallsTo(H, "digest.Parse")
+	verifier := CallsTo(H, "(digest.Digest).Verifier")[0].(*ssa.Call)
+	hChk := c12ParamIndexReaching(H, "digest.Parse", 0)
+	okH := rIdx >= 0 && vIdx >= 0 && hChk >= 0
+	var hReader *ssa.Parameter
+	for _, prm := range H.Params {
+		if types.IsInterface(prm.Type()) {
+			hReader = prm
+		}
+	}
+	if hReader == nil {
+		okH = false
+	}
+	var tee *ssa.Call
+	if okH {
+		okH = false
+		for _, p := range parses {
+			if d := ResultOf(p, 0); d != nil && c11DerivesFrom(verifier.Call.Args[0], map[ssa.Value]bool{d: true}) {
+				okH = true
+			}
+		}
+		for _, t := range CallsTo(H, "io.TeeReader") {
+			tc := t.(*ssa.Call)
+			if c11DerivesFrom(tc.Call.Args[0], map[ssa.Value]bool{hReader: true}) && c11DerivesFrom(tc.Call.Args[1], map[ssa.Value]bool{verifier: true}) {
+				tee = tc
+			}
+		}
+		if tee == nil {
+			okH = false
+		}
+	}
+	if okH {
+		var parseOK []Edge
+		for _, p := range parses {
+			if e := ErrOf(p); e != nil {
+				ne, _, _ := NilTests(H, Aliases(e))
+				parseOK = append(parseOK, ne...)
+			}
+		}
+		if len(parseOK) == 0 {
+			okH = false
+		}
+		for _, ret := range Returns(H) {
+			rv, rr := ret.Results[vIdx], ret.Results[rIdx]
+			for _, rt := range Roots(rv) {
+				if k, isConst := rt.(*ssa.Const); !(isConst && k.Value == nil) && rt != ssa.Value(verifier) {
+					okH = false
+				}
+			}
+			for _, rt := range Roots(rr) {
+				if rt != ssa.Value(tee) && !c11DerivesFrom(rt, map[ssa.Value]bool{hReader: true}) {
+					okH = false
+				}
+			}
+			for _, pe := range parseOK {
+				if ret.Block() != pe.To && !reach(pe.To, 0, ret, nil) {
+					continue
+				}
+				// behind the parse-success edge the pair is (tee, verifier)
+				if !c12NonNilBehind(rv, pe, verifier, 0) || !c12NonNilBehind(rr, pe, tee, 0) {
+					okH = false
+				}
+			}
+		}
+	}
+	// E's side
+	var reader, hArgReader ssa.Value
+	for _, a := range xcall.Call.Args {
+		if types.IsInterface(a.Type()) {
+			reader = a
+		}
+	}
+	if hReader != nil {
+		for i, prm := range H.Params {
+			if prm == hReader && i < len(hcall.Call.Args) {
+				hArgReader = hcall.Call.Args[i]
+			}
+		}
+	}
+	isRes := func(v ssa.Value, idx int) bool {
+		rs := Roots(v)
+		if len(rs) != 1 {
+			return false
+		}
+		ex, ok := rs[0].(*ssa.Extract)
+		return ok && ex.Tuple == ssa.Value(hcall) && ex.Index == idx
+	}
+	okR := okH && reader != nil && isRes(reader, rIdx) && hArgReader != nil && c11DerivesFrom(hArgReader, map[ssa.Value]bool{gzr: true}) && MustPass(xcall, newCut().Instr(hcall))
+	c.Check(R2, en+"|reader-tees-into-verifier", xcall.Pos(), okR,
+		ifelse(okR, "the tar extractor reads the reader returned by "+FnName(H)+", which is io.TeeReader(gzip reader, verifier) whenever the checksum parses",
+			"the bytes the tar extractor consumes are not fed to the verifier of the recorded digest: a tampered tar stream is unpacked without notice"))
+	r := ErrFlow(xcall, ErrFlowOpts{})
+	c.Check(R2, en+"|extract-error-surfaces", xcall.Pos(), r.OK, ifelse(r.OK, r.How, r.Detail))
+	var verT, noVer []Edge
+	for _, i := range Ifs(E) {
+		cond, t, _ := ifEdges(i)
+		recv, _ := c12Invoke(cond, "Verified")
+		if recv == nil || !isRes(recv, vIdx) {
+			continue
+		}
+		verT = append(verT, t)
+		ne, _, _ := NilTests(E, Aliases(Roots(recv)[0]))
+		noVer = append(noVer, ne...)
+	}
+	atoms := c11SuccessAtoms(E)
+	okVer := okH && len(verT) > 0 && len(atoms) > 0 && c11AllAtomsPass(atoms, func() *cut { return newCut().Edges(verT...).Edges(noVer...) })
+	c.Check(R2, en+"|success-dominated-by-verified", E.Pos(), okVer,
+		ifelse(okVer, "every nil return passes the Verified()==true edge of the verifier returned by "+FnName(H)+" or its nil edge (nil only where the checksum did not parse)",
+			"the extractor can return nil on the checksum-parsed path without Verified()==true of the verifier that the TeeReader feeds: a directory whose tar digest mismatches is accepted"))
+	// which parameter of E carries the checksum
+	if hChk >= 0 && hChk < len(hcall.Call.Args) {
+		for _, rt := range Roots(hcall.Call.Args[hChk]) {
+			if prm, ok := rt.(*ssa.Parameter); ok {
+				for i, q := range E.Params {
+					if q == prm {
+						return i
+					}
+				}
+			}
+		}
+	}
+	return -2
+}
+
+// c12NonNilBehind: on every path that takes edge `from` (the checksum parsed),
+// the value v denotes `want` (never the nil alternative of a phi / the zero
+// value of a cell).
+func c12NonNilBehind(v ssa.Value, from Edge, want ssa.Value, depth int) bool {
+	if depth > 4 {
+		return false
+	}
+	v = strip(v)
+	if v == want {
+		return true
+	}
+	behind := func(b *ssa.BasicBlock) bool {
+		return b == from.To || reach(from.To, 0, b.Instrs[len(b.Instrs)-1], nil)
+	}
+	switch u := v.(type) {
+	case *ssa.Phi:
+		for i, e := range u.Edges {
+			pred := u.Block().Preds[i]
+			if !behind(pred) {
+				continue // this alternative is not selected on the parse-success path
+			}
+			if !c12NonNilBehind(e, from, want, depth+1) {
+				return false
+			}
+		}
+		return true
+	case *ssa.UnOp:
+		if a := cellOf(u); a != nil {
+			var sts []ssa.Instruction
+			for _, st := range storesTo(a) {
+				if strip(st.Val) == want {
+					sts = append(sts, st)
+				}
+			}
+			return len(sts) > 0 && !reach(from.To, 0, u, newCut().Instr(sts...))
+		}
+	}
+	return false
 }
 
 // ---------- R3 ----------
@@ -842,7 +1064,7 @@ func c12R3(c *Ctx, fns []*ssa.Function) {
 
 func c12R4(c *Ctx, fns []*ssa.Function) {
 	const R4 = "C12.R4.duplicates-restored"
-	c.Expect(R4, 4)
+	c.Expect(R4, 5)
 	push := c.P.Fn(c11Pkg, "Store.Push")
 	if push == nil {
 		c.LostAnchor(R4, "(*~/content/file.Store).Push")
@@ -859,14 +1081,25 @@ func c12R4(c *Ctx, fns []*ssa.Function) {
 		return
 	}
 	pn, rn := FnName(push), FnName(RD)
+	// callees of the restorer, its closures and (one level) its in-package helpers: the per-successor
+	// step may be an immediately-invoked closure or an extracted method
 	rdCallees := map[*ssa.Function]bool{}
-	for _, f := range append([]*ssa.Function{RD}, Anons(RD)...) {
-		for _, call := range Calls(f, func(string) bool { return true }) {
-			if g := StaticCallee(call); g != nil {
+	var collect func(f *ssa.Function, depth int)
+	collect = func(f *ssa.Function, depth int) {
+		for _, h := range append([]*ssa.Function{f}, Anons(f)...) {
+			for _, call := range Calls(h, func(string) bool { return true }) {
+				g := StaticCallee(call)
+				if g == nil || rdCallees[g] {
+					continue
+				}
 				rdCallees[g] = true
+				if depth > 0 && g != push && fnPkgPath(g) == pkgPath(c11Pkg) && g.Object() != nil && !g.Object().Exported() {
+					collect(g, depth-1)
+				}
 			}
 		}
 	}
+	collect(RD, 1)
 	var rdCalls, pushCalls []ssa.CallInstruction
 	for _, call := range Calls(push, func(string) bool { return true }) {
 		g := StaticCallee(call)
@@ -907,7 +1140,18 @@ func c12R4(c *Ctx, fns []*ssa.Function) {
 	n := 0
 	for _, call := range Calls(RD, func(string) bool { return true }) {
 		g := StaticCallee(call)
-		if g == nil || g.Parent() != RD || ErrResultIndex(g.Signature) < 0 {
+		if g == nil || ErrResultIndex(g.Signature) < 0 || fnPkgPath(g) != pkgPath(c11Pkg) {
+			continue
+		}
+		// the per-successor step: a closure of the restorer or an in-package helper that reaches the push helper
+		isStep := false
+		for _, pc := range pushCalls {
+			ph := StaticCallee(pc)
+			if g == ph || reachesCall(g, 1, func(_ string, cc ssa.CallInstruction) bool { return StaticCallee(cc) == ph }) {
+				isStep = true
+			}
+		}
+		if !isStep {
 			continue
 		}
 		n++
@@ -915,7 +1159,124 @@ func c12R4(c *Ctx, fns []*ssa.Function) {
 		c.Check(R4, rn+"|tolerates-only-notfound-and-duplicate", call.Pos(), r.OK, ifelse(r.OK, r.How, "the restorer swallows an error other than ErrNotFound / ErrDuplicateName: a duplicate that could not be written is silently missing: "+r.Detail))
 	}
 	if n == 0 {
-		c.Undecided(R4, rn+"|tolerates-only-notfound-and-duplicate", RD.Pos(), "the per-successor restore step is not an immediately-invoked closure any more; shape not recognised")
+		c.Undecided(R4, rn+"|tolerates-only-notfound-and-duplicate", RD.Pos(), "no call in the restorer reaches the push helper; shape not recognised")
+	}
+	c12R4EveryNamedSuccessor(c, R4, RD, rdCallees, pushCalls)
+}
+
+// c12R4EveryNamedSuccessor: in the restorer's loop over the successors, a
+// successor is skipped (next iteration reached without the restore step) only
+// on conditions that depend on nothing but its NAME (title annotation empty,
+// name already exists).  Same content under a different name must still be
+// materialised, so a skip depending on the digest, a counter, a set of already
+// restored contents … loses files.
+func c12R4EveryNamedSuccessor(c *Ctx, R4 string, RD *ssa.Function, rdCallees map[*ssa.Function]bool, pushCalls []ssa.CallInstruction) {
+	rn := FnName(RD)
+	key := rn + "|every-named-successor-restored"
+	var succ ssa.Value
+	for _, sc := range CallsTo(RD, "~/content.Successors") {
+		succ = ResultOf(sc, 0)
+	}
+	var loop *Loop
+	var body Edge
+	for _, l := range Loops(RD) {
+		if r, _, b, _, ok := l.RangeIndex(); ok && succ != nil && c11SameRoots(r, succ) {
+			loop, body = l, b
+		}
+	}
+	if loop == nil {
+		c.Undecided(R4, key, RD.Pos(), "no range loop over the result of content.Successors in the restorer; shape not recognised")
+		return
+	}
+	pushHelpers := map[*ssa.Function]bool{}
+	for _, p := range pushCalls {
+		pushHelpers[StaticCallee(p)] = true
+	}
+	var steps []ssa.Instruction
+	for _, call := range Calls(RD, func(string) bool { return true }) {
+		g := StaticCallee(call)
+		if g == nil || !loop.Contains(call.(ssa.Instruction)) {
+			continue
+		}
+		if _, isDefer := call.(*ssa.Defer); isDefer {
+			continue
+		}
+		direct := pushHelpers[g]
+		viaHelper := fnPkgPath(g) == fnPkgPath(RD) && reachesCall(g, 1, func(_ string, cc ssa.CallInstruction) bool { return pushHelpers[StaticCallee(cc)] })
+		if direct || viaHelper {
+			steps = append(steps, call.(ssa.Instruction))
+		}
+	}
+	if len(steps) == 0 {
+		c.Violation(R4, key, blockPos(loop.Header), "the loop over the successors never reaches the push helper: no duplicate is restored")
+		return
+	}
+	header := loop.Header.Instrs[0]
+	cutS := newCut().Instr(steps...)
+	// blocks on a skip path: reachable from the body entry and reaching the next iteration, both without the restore step
+	title := ""
+	if k, ok := c.P.Obj("github.com/opencontainers/image-spec/specs-go/v1", "AnnotationTitle").(*types.Const); ok {
+		title = strings.Trim(k.Val().ExactString(), "\"")
+	}
+	nameOnly := func(cond ssa.Value) (bool, string, bool) {
+		switch strip(cond).(type) {
+		case *ssa.BinOp, *ssa.Call, *ssa.UnOp, *ssa.Lookup, *ssa.Extract, *ssa.Field:
+		default:
+			return false, describe(cond), false
+		}
+		var leaves []ssa.Value
+		c11Operands(cond, &leaves, map[ssa.Value]bool{}, 0)
+		for _, lf := range leaves {
+			switch u := lf.(type) {
+			case *ssa.Const:
+				continue
+			case *ssa.Parameter:
+				if len(RD.Params) > 0 && u == RD.Params[0] && RD.Signature.Recv() != nil {
+					continue // the store itself
+				}
+			case *ssa.Lookup:
+				if k, ok := constString(u.Index); ok && title != "" && k == title && strings.HasSuffix(fieldOfFuncValue(u.X), "Descriptor.Annotations") {
+					continue // the successor's title annotation
+				}
+			}
+			return false, describe(lf), true
+		}
+		return true, "", true
+	}
+	ok := true
+	for b := range loop.Blocks {
+		ifi, isIf := b.Instrs[len(b.Instrs)-1].(*ssa.If)
+		if !isIf || b == loop.Header {
+			continue
+		}
+		onSkipPath := (b == body.To || reach(body.To, 0, b.Instrs[0], cutS)) && reach(b, 0, header, cutS)
+		if !onSkipPath {
+			continue
+		}
+		// the If itself must be reachable in its block without the restore step
+		stepBefore := false
+		for _, in := range b.Instrs {
+			if cutS.instrs[in] {
+				stepBefore = true
+			}
+		}
+		if stepBefore {
+			continue
+		}
+		good, what, shape := nameOnly(ifi.Cond)
+		switch {
+		case good:
+		case !shape:
+			ok = false
+			c.Undecided(R4, key, ifi.Pos(), "a condition on a path that skips the restore step has an unrecognised shape: "+what)
+		default:
+			ok = false
+			c.Violation(R4, key, blockPos(b), "a successor with a name can be skipped (next iteration reached without the restore step) on a condition that depends on "+what+
+				", not only on its name: further files with the same content but other names are never materialised")
+		}
+	}
+	if ok {
+		c.OK(R4, key, blockPos(loop.Header), "every path through the loop body that skips the restore step is decided only by the successor's title (empty / already exists)")
 	}
 }
 
@@ -966,6 +1327,12 @@ var c12Mutants = []Mutant{
 		Old:    "\tif err := s.saveFile(gz, expected, content); err != nil {",
 		New:    "\tif _, err := io.Copy(gz, content); err != nil {",
 		Expect: "C12.R2.unpack-verifies|(*~/content/file.Store).pushDir|gzip-saved-through-verifying-copy"},
+	{Name: "outer-verifier-shadowed", File: "content/file/utils.go",
+		Old: "\t\t\tverifier = digest.Verifier()", New: "\t\t\tverifier := digest.Verifier()",
+		Expect: "C12.R2.unpack-verifies|~/content/file.extractTarGzip|success-dominated-by-verified"},
+	{Name: "verified-skipped-for-parsed-checksum", File: "content/file/utils.go",
+		Old: "\tif verifier != nil && !verifier.Verified() {", New: "\tif verifier != nil && len(checksum) < 10 && !verifier.Verified() {",
+		Expect: "C12.R2.unpack-verifies|~/content/file.extractTarGzip|success-dominated-by-verified"},
 	// R3
 	{Name: "uid-not-zeroed", File: "content/file/utils.go",
 		Old: "\t\theader.Uid = 0\n", New: "",
@@ -987,6 +1354,10 @@ var c12Mutants = []Mutant{
 	{Name: "restore-on-forcecas-only", File: "content/file/file.go",
 		Old: "\tif !s.ForceCAS {", New: "\tif s.ForceCAS {",
 		Expect: "C12.R4.duplicates-restored|(*~/content/file.Store).Push|restores-duplicates"},
+	{Name: "restorer-skips-by-content", File: "content/file/file.go",
+		Old:    "\t\tif name == \"\" || s.nameExists(name) {\n\t\t\tcontinue\n\t\t}\n\t\tif err := func() error {",
+		New:    "\t\tif name == \"\" || s.nameExists(name) || successor.Size == 0 {\n\t\t\tcontinue\n\t\t}\n\t\tif err := func() error {",
+		Expect: "C12.R4.duplicates-restored|(*~/content/file.Store).restoreDuplicates|every-named-successor-restored"},
 	{Name: "restorer-tolerates-everything", File: "content/file/file.go",
 		Old: "\t\t\tdefault:\n\t\t\t\treturn err\n", New: "\t\t\tdefault:\n\t\t\t\tcontinue\n",
 		Expect: "C12.R4.duplicates-restored|(*~/content/file.Store).restoreDuplicates|tolerates-only-notfound-and-duplicate"},
